@@ -1,6 +1,167 @@
-"""placeholder, filled in by the pke satellite"""
-from common import ToolError
+"""C12: PKE and encrypted-header layers round-trip and authenticate.
+
+spec/Pke.tla is a symbolic model of the KEM-DEM composition (ideal KDF, AEAD and
+KEM) and of the contract of the statement. TLC enumerates the abstract cases
+with their expected verdicts (mode gen) and names the cases where the design
+itself cannot meet the contract; the harness (cc-harness pke) concretises every
+case on the real library (real keys, real bytes, every truncation length,
+flipped bits); TLC judges every observed execution against the verdict it
+recomputes from the case description (mode check)."""
+import json
+import os
+import time
+
+from common import ToolError, build_harness, log, run_harness, seed
+from common import workdir
+from satellites import finish, run_module, tagged, write_cfg
+
+QUICK_LENS = [0, 1, 11, 12, 13, 15, 16, 17, 31, 32, 33, 47, 48, 64, 80]
+CASE_KEYS = ("layer", "len", "md", "aadg", "aadd", "key", "tamper", "region")
+
+WHAT = {
+    "metadata-stripped": "a header whose encrypted metadata was dropped decrypts successfully: same secret, metadata None, "
+                         "authentication data ignored",
+    "aad-unbound-without-metadata": "a header generated without metadata decrypts successfully under authentication data of "
+                                    "different content (nothing binds the authentication data when there is no metadata)",
+    "panic": "decryption panicked",
+    "ok-wrong": "decryption succeeded with data or a secret that are not the generated ones",
+    "ok-exact": "decryption succeeded although the ciphertext, the authentication data or the opening key is not the "
+                "one of generation",
+    "none": "'not authorized' (Ok(None)) where the contract demands another outcome",
+    "err": "an error where the contract demands another outcome",
+}
+
+
+def case_key(r):
+    return tuple(r.get(k) for k in CASE_KEYS)
+
+
+def spread(viols):
+    """Orders violation instances so that every distinct (cause, tamper, layer) is represented first."""
+    groups = {}
+    for v in viols:
+        c = v["detail"]["case"]
+        groups.setdefault((v["cause"], c.get("tamper"), c.get("layer")), []).append(v)
+    out, rest = [], []
+    for g in groups.values():
+        out.append(g[0])
+        rest.extend(g[1:])
+    return out + rest
 
 
 def check(tier):
-    raise ToolError("pke satellite not built yet")
+    t0 = time.time()
+    prop = "C12"
+    wd = workdir(prop)
+    build_harness("default")
+    thorough = tier != "quick"
+    cfg = os.path.join(wd, "Pke.cfg")
+    lens = "{" + ", ".join(map(str, range(81) if thorough else QUICK_LENS)) + "}"
+    write_cfg(cfg, {"Lens": lens, "Full": "TRUE" if thorough else "FALSE"})
+
+    # 1. TLC enumerates the abstract cases with their expected verdicts
+    g = run_module("Pke.tla", cfg, wd, "gen", timeout=1200)
+    cases = tagged(g["out"], "CASE")
+    gaps = tagged(g["out"], "GAP")
+    if not cases or "GEN-DONE" not in g["out"]:
+        raise ToolError("Pke gen did not finish:\n" + g["out"][-3000:])
+    cases.sort(key=lambda c: json.dumps(c, sort_keys=True))
+    cases_path = os.path.join(wd, "cases.ndjson")
+    with open(cases_path, "w") as f:
+        for i, c in enumerate(cases):
+            c["id"] = i
+            f.write(json.dumps(c) + "\n")
+    gap_kinds = sorted({x["gap"] for x in gaps})
+    log(f"[{prop}] {len(cases)} abstract cases; the design misses the contract on {len(gaps)} of them {gap_kinds}")
+
+    # 2. the harness executes every case on the real library
+    obs = os.path.join(wd, "observed.ndjson")
+    args = ["pke", "--cases", cases_path, "--out", obs, "--seed", str(seed())]
+    if thorough:
+        args.append("--thorough")
+    run_harness(args, timeout=6000)
+    if os.path.exists(obs + ".hang"):
+        # a call of the library did not return: the observed file is incomplete, the case in flight is the finding
+        with open(obs + ".hang") as f:
+            text = f.read()
+        try:
+            inflight = json.loads(text)
+        except json.JSONDecodeError:
+            inflight = {"raw": text[:500]}
+        viols = [{"what": "a call of the library did not return while executing this case (encrypt / generate / decrypt)",
+                  "cause": "hang", "detail": {"case": inflight}}]
+        cov = {"evaluations": 1, "distinct_nontrivial": 0, "rule": "interrupted: a library call did not return",
+               "samples": [inflight], "abstract_cases": len(cases), "states": 1, "transitions": 1}
+        return finish(prop, tier, t0, viols, cov)
+
+    # 3. TLC judges the observed executions
+    c = run_module("Pke.tla", cfg, wd, "check", trace=obs, timeout=6000)
+    done = tagged(c["out"], "CHECK-DONE")
+    if not done and "CHECK-DONE" not in c["out"]:
+        raise ToolError("Pke check did not finish:\n" + c["out"][-3000:])
+    viols = []
+    for line in c["out"].splitlines():
+        if line.startswith('<<"VIOL"'):
+            body = line[line.index(",") + 1:line.rindex(">>")].strip()
+            _, js = body.split(",", 1)
+            rec = json.loads(json.loads(js.strip()))
+            case = rec["case"]
+            # the recorded class: the stripped header is accepted (as the design predicts)
+            cause = rec["cause"]
+            if case.get("tamper") == "strip-metadata" and case.get("obs") in ("ok-wrong", "ok-exact"):
+                cause = "metadata-stripped"
+            what = WHAT.get(cause, cause)
+            what += f" [{case.get('layer')}, tamper {case.get('tamper')}, expected {rec['expected']}, observed {case.get('obs')}]"
+            viols.append({"what": what, "cause": cause, "detail": rec})
+    viols = spread(viols)
+
+    recs = []
+    with open(obs) as f:
+        for line in f:
+            recs.append(json.loads(line))
+    if not recs:
+        raise ToolError("the harness produced no execution")
+    executed = {case_key(r) for r in recs}
+    missing = [c for c in cases if case_key(c) not in executed]
+    if missing:
+        raise ToolError(f"{len(missing)} abstract cases were not executed, e.g. {missing[0]}")
+    nontrivial = {case_key(r) for r in recs if r.get("exp") != "ok-exact"}
+    by_obs = {}
+    for r in recs:
+        by_obs[r["obs"]] = by_obs.get(r["obs"], 0) + 1
+    by_tamper = {}
+    for r in recs:
+        k = f"{r['layer']}/{r['tamper']}"
+        by_tamper[k] = by_tamper.get(k, 0) + 1
+    classes = {}
+    for v in viols:
+        k = f"{v['cause']} | {v['detail']['case'].get('layer')}/{v['detail']['case'].get('tamper')}"
+        classes[k] = classes.get(k, 0) + 1
+    step = max(1, len(recs) // 4)
+    cov = {
+        "evaluations": len(recs),
+        "distinct_nontrivial": len(nontrivial),
+        "rule": "abstract cases enumerated by Pke.tla: layer {pke, header} x length in "
+                + ("0..80" if thorough else str(QUICK_LENS))
+                + " x metadata {absent, empty, non-empty} x authentication data at generation {absent, empty, non-empty} x at "
+                  "decryption {absent, empty, same, different} x key {authorized, unauthorized} x tamper {none, flip nonce / body / "
+                  "tag / length prefix / encapsulation byte, truncation in every region (encapsulation, length, nonce, body, tag), "
+                  "encrypted metadata cut short inside a consistently re-framed header, metadata stripped, metadata swapped between two headers, ciphertext presented to the other layer, direct AEAD "
+                  "opening with the returned secret / with the seed}; "
+                + ("all authentication-data pairs on every tamper class (same / different on truncations), exhaustive flips "
+                   "(every byte x every bit) on the authorized / same-data sub-family. "
+                   if thorough else
+                   "all authentication-data pairs on untampered and stripped cases, same / different on the other tamper classes, "
+                   "same on truncations; flips at first / middle / last byte x 2 bits (+10 random positions in the encapsulation). ")
+                + "Every truncation length of the touched region is executed; header tampers go through serialize -> tamper -> "
+                  "deserialize -> decrypt. An evaluation is one real decryption; non-trivial = distinct abstract case whose "
+                  "expected verdict is not ok-exact.",
+        "samples": [{k: r[k] for k in CASE_KEYS + ("exp", "obs", "detail")} for r in recs[step // 2::step][:4]],
+        "abstract_cases": len(cases),
+        "design_gaps_found_by_tlc": {k: sum(1 for x in gaps if x["gap"] == k) for k in gap_kinds},
+        "observed_outcomes": by_obs,
+        "disagreement_classes": classes,
+        "executions_per_tamper": by_tamper,
+        "states": max(1, c["distinct"]), "transitions": max(1, c["generated"]),
+    }
+    return finish(prop, tier, t0, viols, cov)
